@@ -52,6 +52,12 @@ type Thread struct {
 	// functions).
 	goFunctionCallDepth int
 
+	// Depth of nested calls made from Go code on behalf of Lua code
+	// (metamethods, hooks, finalizers...).  Each one runs a nested
+	// RunContinuation loop on the Go stack, so it is bounded by
+	// maxGoFunctionCallDepth too.
+	nestedCallDepth int
+
 	DebugHooks
 
 	closeStack // Stack of pending to-be-closed values
@@ -271,6 +277,11 @@ func (t *Thread) end(args []Value, err error, exception interface{}) {
 }
 
 func (t *Thread) call(c Callable, args []Value, next Cont) error {
+	t.nestedCallDepth++
+	defer func() { t.nestedCallDepth-- }()
+	if t.nestedCallDepth > maxGoFunctionCallDepth {
+		return errors.New("stack overflow")
+	}
 	cont := c.Continuation(t, next)
 	t.Push(cont, args...)
 	return t.RunContinuation(cont)
